@@ -426,3 +426,57 @@ def cpp_visit(g, tags):
     o.append("W int64_t visitcount_%s(char* p, size_t n, uint32_t stop_at, uint32_t* count){ %s auto c = sbepp::init_cursor(m); cntv v{0, stop_at}; sbepp::visit_children(m, c, v); *count = v.n; return c.pointer() - p; }" % (g.M, g.view()))
     o.append("W int64_t visitcc_%s(const char* p, size_t n, vlog* l){ %s l->base = p; rec v{l}; sbepp::visit_children(m, v); return 0; }" % (g.M, g.view(const=True)))
     return "\n".join(o) + "\n"
+
+
+# ====================================================================== scripted full encode (C01 composition cross-check)
+def encode_script(g, D):
+    """returns (C++ wrapper text, C reference lines) for: fill header; set every field; for every group fill_group_header(count) then encode its entries in order;
+    for every data resize(len) and store every byte.  Values come from vals[], counts from cnts[], lengths from lens[] (consumed in script order)."""
+    cpp = ["W void encode_%s(char* p, size_t n, const uint64_t* vals, const uint32_t* cnts, const uint32_t* lens){ %s uint32_t vi = 0, ci = 0, li = 0; sbepp::fill_message_header(m);" % (g.M, g.view())]
+    ref = []
+    be = g.be
+    hv = {"blockLength": g.msg.block_length, "templateId": g.msg.id, "schemaId": g.sch.id, "version": g.sch.version, "numGroups": len(g.msg.groups), "numVarDataFields": len(g.msg.data)}
+    for name, v in hv.items():
+        if name in g.hdr:
+            off, prim = g.hdr[name]
+            ref.append("for (unsigned k = 0; k < %d; k++) exp[%d + k] = ref_byte(%dULL, %d, %d, k);" % (SZ[prim], off, v, SZ[prim], be))
+    ref.append("u64 pos; u32 vi = 0, ci = 0, li = 0;")
+
+    def level(node, var, base_c, bl_c, depth, ind):
+        for lf in M.leaves(node.fields):
+            if lf.const: continue
+            if lf.kind == "array":
+                for k in range(lf.typ.length):
+                    cpp.append("%s{ auto a = %s; a[%d] = from_bits<typename decltype(a)::value_type>(vals[vi++]); }" % (ind, lf.expr(var), k))
+                    ref.append("%sexp[%s + %d] = (unsigned char)vals[vi++];" % (ind, base_c, lf.offset + k))
+            else:
+                par = lf.parent_expr(var); nm = lf.chain[-1]
+                cpp.append("%s{ auto o = %s; o.%s(from_bits<decltype(o.%s())>(vals[vi++])); }" % (ind, par, nm, nm))
+                ref.append("%s{ u64 v = vals[vi++]; for (unsigned k = 0; k < %d; k++) exp[%s + %d + k] = ref_byte(v, %d, %d, k); }" % (ind, SZ[lf.prim], base_c, lf.offset, SZ[lf.prim], be))
+        ref.append("%spos = %s + %s;" % (ind, base_c, bl_c))
+        for gr in node.groups:
+            hf = M.header_fields(gr.dim); d = depth
+            cpp.append("%s{ auto g%d = %s.%s(); uint32_t c%d = cnts[ci++]; sbepp::fill_group_header(g%d, (typename decltype(g%d)::size_type)c%d); for(uint32_t j%d = 0; j%d < c%d; j%d++){ auto e%d = at(g%d, j%d);" % (
+                ind, d, var, gr.name, d, d, d, d, d, d, d, d, d, d, d))
+            ref.append("%s{ u32 c%d = cnts[ci++]; u64 h%d = pos;" % (ind, d, d))
+            gv = {"blockLength": gr.block_length, "numGroups": len(gr.groups), "numVarDataFields": len(gr.data)}
+            for name, v in gv.items():
+                if name in hf:
+                    off, prim = hf[name]
+                    ref.append("%s  for (unsigned k = 0; k < %d; k++) exp[h%d + %d + k] = ref_byte(%dULL, %d, %d, k);" % (ind, SZ[prim], d, off, v, SZ[prim], be))
+            off, prim = hf["numInGroup"]
+            ref.append("%s  for (unsigned k = 0; k < %d; k++) exp[h%d + %d + k] = ref_byte(c%d, %d, %d, k);" % (ind, SZ[prim], d, off, d, SZ[prim], be))
+            ref.append("%s  pos = h%d + %d;" % (ind, d, gr.dim.size))
+            ref.append("%s  for (unsigned j%d = 0; j%d < %d; j%d++) if (j%d < c%d) { u64 b%d = pos;" % (ind, d, d, g.G, d, d, d, d))
+            level(gr, "e%d" % d, "b%d" % d, "%d" % gr.block_length, depth + 1, ind + "    ")
+            cpp.append("%s} }" % ind)
+            ref.append("%s  } }" % ind)
+        for dt in node.data:
+            lm = dt.length_member; lsz = SZ[lm.typ.prim]; hs = dt.typ.size
+            cpp.append("%s{ auto d = %s.%s(); uint32_t l = lens[li++]; d.resize((typename decltype(d)::size_type)l, sbepp::default_init); for(uint32_t k = 0; k < l; k++) d[(typename decltype(d)::size_type)k] = from_bits<typename decltype(d)::value_type>(vals[vi++]); }" % (ind, var, dt.name))
+            ref.append("%s{ u32 l = lens[li++]; for (unsigned k = 0; k < %d; k++) exp[pos + %d + k] = ref_byte(l, %d, %d, k); for (unsigned k = 0; k < %d; k++) if (k < l) exp[pos + %d + k] = (unsigned char)vals[vi++]; pos += %d + l; }" % (
+                ind, lsz, lm.offset, lsz, be, D, hs, hs))
+    level(g.msg, "m", "%d" % g.HDR, "%d" % g.msg.block_length, 0, "  ")
+    cpp.append("}")
+    ref.append("u64 end = pos;")
+    return "\n".join(cpp) + "\n", ref
